@@ -58,7 +58,7 @@ Proof. unfold gas_spec, priced. intros [[H _]|H] Hlt; [lia|exact H]. Qed.
 
 (* gas projections of the output constructors *)
 Ltac gsimpl :=
-  unfold priced, all_consumed, gas_spec, sum_gasLimit, add_output_transfer, add_nft_transfer, add_log, set_logs,
+  unfold gas_spec, priced, all_consumed, sum_gasLimit, add_output_transfer, add_nft_transfer, add_log, set_logs,
     set_returnData, set_accounts, set_gasrem, mk_out in *;
   cbn [o_gasRemaining o_accounts oc_transfers tr_gasLimit fold_right o_rc o_logs o_returnData] in *.
 
@@ -92,7 +92,9 @@ Ltac ainv :=
   repeat match goal with
          | H : arg _ _ _ = (Ok _, _) |- _ => apply c06_arg_ok in H; destruct H as [? ?]; subst
          | H : args_from _ _ _ = (Ok _, _) |- _ => apply c06_args_from_ok in H; destruct H as [? ?]; subst
-         end.
+         end;
+  change (N.to_nat 0) with 0%nat in *; change (N.to_nat 1) with 1%nat in *; change (N.to_nat 2) with 2%nat in *;
+  change (N.to_nat 3) with 3%nat in *; change (N.to_nat 4) with 4%nat in *.
 
 Lemma c06_sub64_twice g c st : c <= g -> g < two64 -> st < two64 -> u64 (c + st) <= g ->
   sub64 (sub64 g c) st = g - u64 (c + st).
@@ -204,15 +206,22 @@ Section GasSpec.
       (destruct (i_snd i); [rewrite c06_cgr_snd by assumption|rewrite c06_cgr_nosnd]; gsimpl; lia).
   Qed.
 
+  (* quirk: a same-shard asynchronous call by a contract moves the remaining gas into a call-back
+     transfer and then drops the transfer: the remaining gas is lost (never created) *)
+  Definition claim_drops_gas (i : input) : bool :=
+    (i_dst i && (i_callType i =? C.AsynchronousCall) && is_sc (i_caller i))%bool.
   Lemma gas_claim_rewards i s o s' : f_claim_rewards E i s = (Ok o, s') -> i_gas i < two64 ->
-    if i_snd i then gas_spec i o (g_ClaimDeveloperRewards G) /\ (g_ClaimDeveloperRewards G <= i_gas i -> priced i o (g_ClaimDeveloperRewards G))
+    if i_snd i then gas_spec i o (g_ClaimDeveloperRewards G)
+                    /\ (g_ClaimDeveloperRewards G <= i_gas i -> claim_drops_gas i = false -> priced i o (g_ClaimDeveloperRewards G))
     else all_consumed o.
   Proof.
-    unfold f_claim_rewards. cbv zeta. intros H Hg.
+    unfold f_claim_rewards, claim_drops_gas. cbv zeta. intros H Hg.
     destruct (i_snd i) eqn:Hs.
     - destruct (N.le_gt_cases (g_ClaimDeveloperRewards G) (i_gas i)) as [Hc|Hc].
       + rewrite c06_cgr_snd in H by assumption. ginv; gas_arith;
-          repeat match goal with |- context [if ?b then _ else _] => destruct b end; gsimpl; lia.
+          repeat match goal with |- context [if ?b then _ else _] => destruct b eqn:? end; gsimpl;
+          repeat match goal with H : ?b = true |- context [?b] => rewrite H end; cbn [andb]; try lia;
+          (split; [lia|intros; discriminate]).
       + rewrite c06_cgr_under in H by assumption. ginv; gas_arith;
           repeat match goal with |- context [if ?b then _ else _] => destruct b end; gsimpl; lia.
     - rewrite c06_cgr_nosnd in H. ginv; gas_arith;
@@ -224,8 +233,463 @@ Section GasSpec.
     if i_dst i then priced i o (g_SaveUserName G) /\ sum_gasLimit o = 0
     else o_gasRemaining o = 0 /\ sum_gasLimit o = i_gas i.
   Proof.
-    unfold f_set_user_name. cbv zeta. intros H Hg. ginv; gas_arith; gsimpl.
+    unfold f_set_user_name. cbv zeta. intros H Hg. ginv; gas_arith; gsimpl;
+      match goal with H : i_dst i = _ |- _ => rewrite H end.
     - lia.
     - rewrite c06_sub64_exact by assumption. lia.
+  Qed.
+
+  (* ================================================================ *)
+  (* state lemmas needed by the state-dependent charges                 *)
+  (* ================================================================ *)
+  Lemma c06_acct_accts s s' a : accts s' = accts s -> acct s' a = acct s a.
+  Proof. unfold acct. intros ->. reflexivity. Qed.
+  Lemma c06_dep_ok s u s' : dep E s = (Ok u, s') ->
+    s' = {| accts := accts s; calls := S (calls s); allocs := allocs s |}.
+  Proof. unfold dep. destruct (plan E (calls s)); intros H; inversion H; reflexivity. Qed.
+  Lemma c06_dep_accts s u s' : dep E s = (Ok u, s') -> accts s' = accts s.
+  Proof. intros H. apply c06_dep_ok in H. subst. reflexivity. Qed.
+  Lemma c06_retrieve_ok a k s b s' : retrieve a k s = (Ok b, s') -> b = sget (a_store (acct s a)) k /\ s' = s.
+  Proof. unfold retrieve. intros H. inversion H. split; reflexivity. Qed.
+  Lemma c06_write_kv_ok a k v s u s' : write_kv a k v s = (Ok u, s') ->
+    a_store (acct s' a) = sput (a_store (acct s a)) k v /\ (forall a', a' <> a -> acct s' a' = acct s a').
+  Proof.
+    unfold write_kv. intros H. inversion H. subst. unfold acct at 1. cbn [accts with_accts]. split.
+    - rewrite aget_aput_eq. reflexivity.
+    - intros a' Hne. unfold acct at 1. cbn [accts with_accts]. rewrite aget_aput_ne by assumption. reflexivity.
+  Qed.
+  Lemma c06_save_kv_ok a k v s u s' : save_kv E a k v s = (Ok u, s') ->
+    a_store (acct s' a) = sput (a_store (acct s a)) k v /\ (forall a', a' <> a -> acct s' a' = acct s a').
+  Proof.
+    unfold save_kv. intros H. minv.
+    match goal with H : dep E _ = _ |- _ => apply c06_dep_accts in H; rename H into Hd end.
+    match goal with H : write_kv _ _ _ _ = _ |- _ => apply c06_write_kv_ok in H; destruct H as [H1 H2] end.
+    rewrite H1. rewrite (c06_acct_accts _ _ a Hd). split; [reflexivity|].
+    intros a' Hne. rewrite H2 by assumption. apply c06_acct_accts. assumption.
+  Qed.
+
+  (* ================================================================ *)
+  (* SaveKeyValue                                                       *)
+  (* ================================================================ *)
+  (* the gas the loop accumulates, as a function of the caller's storage (Go arithmetic) *)
+  Fixpoint skv_charge (st : store) (pairs : list bytes) (use : N) : N :=
+    match pairs with
+    | k :: v :: rest =>
+      let use1 := u64 (use + u64 (u64 (zlen v + zlen k) * g_PersistPerByte G)) in
+      let old := sget st k in
+      if beqb old v then skv_charge st rest use1 else
+      let change := if zlen old <? zlen v then zlen v - zlen old else 0 in
+      skv_charge (sput st k v) rest (u64 (use1 + u64 (g_StorePerByte G * change)))
+    | _ => use
+    end.
+  Definition charge_save_key_value (i : input) (s : mstate) : N :=
+    skv_charge (a_store (acct s (i_caller i))) (i_args i) (g_SaveKeyValue G).
+
+  Lemma c06_skv_loop_ok a gp : forall n pairs use s u s', (length pairs <= n)%nat ->
+    skv_loop E a gp pairs use s = (Ok u, s') -> u = skv_charge (a_store (acct s a)) pairs use.
+  Proof.
+    induction n as [|n IH]; intros pairs use s u s' Hlen H.
+    - destruct pairs; [|simpl in Hlen; lia]. cbn [skv_loop] in H. minv. reflexivity.
+    - destruct pairs as [|k [|v rest]]; cbn [skv_loop] in H; [minv; reflexivity|minv|].
+      cbv zeta in H. minv.
+      match goal with H : retrieve _ _ _ = _ |- _ => apply c06_retrieve_ok in H; destruct H as [-> ->] end.
+      cbn [skv_charge]. cbv zeta.
+      destruct (beqb (sget (a_store (acct s a)) k) v) eqn:Eq.
+      + eapply IH; [|eassumption]. simpl in Hlen. lia.
+      + minv.
+        match goal with H : save_kv _ _ _ _ _ = _ |- _ => apply c06_save_kv_ok in H; destruct H as [Hst _] end.
+        rewrite <- Hst. eapply IH; [|eassumption]. simpl in Hlen. lia.
+  Qed.
+
+  Lemma gas_save_key_value i s o s' : f_save_key_value E i s = (Ok o, s') -> i_gas i < two64 ->
+    priced i o (charge_save_key_value i s) /\ sum_gasLimit o = 0.
+  Proof.
+    unfold f_save_key_value, charge_save_key_value. cbv zeta. intros H Hg. ginv. gas_arith.
+    match goal with H : skv_loop _ _ _ _ _ _ = _ |- _ => eapply c06_skv_loop_ok in H; [|apply Nat.le_refl] end.
+    subst. gsimpl. rewrite c06_sub64_exact by assumption. lia.
+  Qed.
+
+  (* ================================================================ *)
+  (* ESDTTransfer, both sides                                           *)
+  (* ================================================================ *)
+  Definition sc_call_after (i : input) : bool :=
+    (is_sc (i_rcpt i) && (C.MinLenArgumentsESDTTransfer <? alen (i_args i)))%bool.
+  (* sender present: the function's cost.  Destination side (sender absent): a contract call forwards
+     GasProvided -. cost (saturating); a call-back returns everything; otherwise nothing is returned. *)
+  Definition charge_esdt_transfer (i : input) : N :=
+    if i_snd i then g_ESDTTransfer G
+    else if (i_dst i && sc_call_after i)%bool then g_ESDTTransfer G else 0.
+
+  Lemma gas_esdt_transfer i s o s' : f_esdt_transfer E i s = (Ok o, s') -> i_gas i < two64 ->
+    if i_snd i then priced i o (g_ESDTTransfer G)
+    else if (i_dst i && sc_call_after i)%bool
+         then gas_spec i o (g_ESDTTransfer G) /\ (g_ESDTTransfer G <= i_gas i -> priced i o (g_ESDTTransfer G))
+         else if (i_dst i && (i_callType i =? C.AsynchronousCallBack))%bool then priced i o 0
+         else all_consumed o.
+  Proof.
+    unfold f_esdt_transfer, sc_call_after. cbv zeta. intros H Hg.
+    destruct (i_snd i) eqn:Hs.
+    - ginv; gas_arith; rewrite c06_cgr_snd by assumption; unfold safe_sub_u64;
+        repeat match goal with |- context [if ?b then _ else _] => destruct b eqn:? end; gas_arith; gsimpl; lia.
+    - rewrite c06_cgr_nosnd in H. ginv; gas_arith; unfold safe_sub_u64;
+        repeat match goal with H : ?b = _ |- context [?b] => rewrite H end; cbn [andb negb];
+        repeat match goal with |- context [if ?b then _ else _] => destruct b eqn:? end; gas_arith; gsimpl; lia.
+  Qed.
+
+  (* ================================================================ *)
+  (* helper inversions for the NFT transfers                            *)
+  (* ================================================================ *)
+  Lemma c06_unmarshal_tok_ok b s t s' : unmarshal_tok E b s = (Ok t, s') ->
+    dec_tok (cdc E) b = Some t /\ accts s' = accts s.
+  Proof.
+    unfold unmarshal_tok. intros H. minv.
+    match goal with H : dep E _ = _ |- _ => apply c06_dep_accts in H end. split; assumption.
+  Qed.
+  Lemma c06_marshal_tok_ok t s b s' : marshal_tok E t s = (Ok b, s') ->
+    b = enc_tok (cdc E) t /\ accts s' = accts s.
+  Proof.
+    unfold marshal_tok. intros H. minv.
+    match goal with H : dep E _ = _ |- _ => apply c06_dep_accts in H end. split; [reflexivity|assumption].
+  Qed.
+  Lemma c06_cfp_ok a key t rae s u s' : check_froze_and_pause a key t rae s = (Ok u, s') -> s' = s.
+  Proof.
+    unfold check_froze_and_pause, is_paused. intros H. ginv; try reflexivity.
+    match goal with H : retrieve _ _ _ = _ |- _ => apply c06_retrieve_ok in H; destruct H as [_ ->] end. reflexivity.
+  Qed.
+  Lemma c06_val_of_ok t s v s' : val_of t s = (Ok v, s') -> t_value t = Some v /\ s' = s.
+  Proof. unfold val_of. intros H. minv. split; [assumption|reflexivity]. Qed.
+  Lemma c06_meta_of_ok t s m s' : meta_of t s = (Ok m, s') -> t_meta t = Some m /\ s' = s.
+  Proof. unfold meta_of. intros H. minv. split; [assumption|reflexivity]. Qed.
+
+  (* the entry found at (a, key ‖ nonce): the default entry when the cell is empty *)
+  Definition entry_at (s : mstate) (a key : bytes) (nonce : N) : option token :=
+    match sget (a_store (acct s a)) (nft_key key nonce) with
+    | [] => Some default_tok
+    | b => dec_tok (cdc E) b
+    end.
+  Lemma c06_get_nft_dest_ok a key n s t isNew s' : get_nft_on_destination E a key n s = (Ok (t, isNew), s') ->
+    entry_at s a key n = Some t /\ accts s' = accts s
+    /\ (isNew = true <-> sget (a_store (acct s a)) (nft_key key n) = []).
+  Proof.
+    unfold get_nft_on_destination, entry_at. intros H. minv.
+    match goal with H : retrieve _ _ _ = _ |- _ => apply c06_retrieve_ok in H; destruct H as [-> ->] end.
+    destruct (sget (a_store (acct s a)) (nft_key key n)) eqn:Eb.
+    - minv. match goal with H : (_, _) = (_, _) |- _ => inversion H; subst end.
+      repeat split; auto.
+    - minv. match goal with H : (_, _) = (_, _) |- _ => inversion H; subst end.
+      match goal with H : unmarshal_tok _ _ _ = _ |- _ => apply c06_unmarshal_tok_ok in H; destruct H as [Hd Ha] end.
+      repeat split; auto; intros; discriminate.
+  Qed.
+  Lemma c06_get_nft_sender_ok a key n s t s' : get_nft_on_sender E a key n s = (Ok t, s') ->
+    dec_tok (cdc E) (sget (a_store (acct s a)) (nft_key key n)) = Some t /\ accts s' = accts s.
+  Proof.
+    unfold get_nft_on_sender. intros H. ginv.
+    match goal with H : get_nft_on_destination _ _ _ _ _ = _ |- _ => apply c06_get_nft_dest_ok in H; destruct H as (He & Ha & Hn) end.
+    unfold entry_at in He. split; [|assumption].
+    destruct (sget (a_store (acct s a)) (nft_key key n)); [|assumption].
+    exfalso. destruct Hn as [_ Hn]. specialize (Hn eq_refl). subst.
+    match goal with H : negb true = true |- _ => discriminate H end.
+  Qed.
+  Lemma c06_save_nft_other a key t rae s b s' : save_nft E a key t rae s = (Ok b, s') ->
+    forall a', a' <> a -> acct s' a' = acct s a'.
+  Proof.
+    unfold save_nft. cbv zeta. intros H a' Hne. ginv;
+      repeat match goal with
+             | H : check_froze_and_pause _ _ _ _ _ = _ |- _ => apply c06_cfp_ok in H; subst
+             | H : val_of _ _ = _ |- _ => apply c06_val_of_ok in H; destruct H as [? ?]; subst
+             | H : marshal_tok _ _ _ = _ |- _ => apply c06_marshal_tok_ok in H; destruct H as [? Hm]
+             | H : save_kv _ _ _ _ _ = _ |- _ => apply c06_save_kv_ok in H; destruct H as [_ Hs]
+             end.
+    - apply Hs. assumption.
+    - rewrite Hs by assumption. apply c06_acct_accts. assumption.
+  Qed.
+  Lemma c06_check_payable_accts v a s u s' : check_payable E v a s = (Ok u, s') -> accts s' = accts s.
+  Proof.
+    unfold check_payable, is_payable. intros H. ginv; try reflexivity;
+      match goal with H : dep E _ = _ |- _ => apply c06_dep_accts in H end; assumption.
+  Qed.
+  (* what the destination ends up holding: the travelling entry with the current holding added *)
+  Lemma c06_add_nft_dest_ok dst key t verify rae s t' s' :
+    add_nft_to_destination E dst key t verify rae s = (Ok t', s') ->
+    exists cur v cv, entry_at s dst key (tok_nonce t) = Some cur /\ t_value t = Some v /\ t_value cur = Some cv
+                     /\ t' = set_value t (Some (v + cv)%Z).
+  Proof.
+    unfold add_nft_to_destination. cbv zeta. intros H. ginv;
+      repeat match goal with
+             | H : check_payable _ _ _ _ = _ |- _ => apply c06_check_payable_accts in H
+             | H : check_froze_and_pause _ _ _ _ _ = _ |- _ => apply c06_cfp_ok in H; subst
+             | H : val_of _ _ = _ |- _ => apply c06_val_of_ok in H; destruct H as [? ?]; subst
+             | H : meta_of _ _ = _ |- _ => apply c06_meta_of_ok in H; destruct H as [? ?]; subst
+             | H : get_nft_on_destination _ _ _ _ _ = _ |- _ => apply c06_get_nft_dest_ok in H; destruct H as (He & Ha & _)
+             end;
+      unfold entry_at in *;
+      match goal with Hp : accts ?s1 = accts s, He : context [acct ?s1 dst] |- _ => rewrite (c06_acct_accts _ _ dst Hp) in He end;
+      eauto 8.
+  Qed.
+
+  (* ================================================================ *)
+  (* ESDTNFTTransfer                                                    *)
+  (* ================================================================ *)
+  (* the entry that travels: the sender's stored entry with Value := quantity; when the destination
+     lives on the same shard the Value already includes the destination's current holding *)
+  Definition nft_sender_entry (i : input) (s : mstate) : option token :=
+    let A := i_args i in
+    let key := P ++ nth 0 A [] in
+    let nonce := bigU64 (nth 1 A []) in
+    let q := bigZ (nth 2 A []) in
+    let dst := nth 3 A [] in
+    match dec_tok (cdc E) (sget (a_store (acct s (i_caller i))) (nft_key key nonce)) with
+    | None => None
+    | Some t =>
+      if self_shard E =? shard_of E dst then
+        match entry_at s dst key (tok_nonce t) with
+        | Some cur => match t_value cur with Some cv => Some (set_value t (Some (q + cv)%Z)) | None => None end
+        | None => None
+        end
+      else Some (set_value t (Some q))
+    end.
+  Definition payload_price (t : token) : N := mul64 (zlen (enc_tok (cdc E) t)) (g_DataCopyPerByte G).
+  Definition charge_nft_transfer (i : input) (s : mstate) : N :=
+    if beqb (i_caller i) (i_rcpt i) then
+      g_ESDTNFTTransfer G + match nft_sender_entry i s with Some t2 => payload_price t2 | None => 0 end
+    else 0.
+
+  Lemma c06_tok_nonce_set_value t v : tok_nonce (set_value t v) = tok_nonce t.
+  Proof. reflexivity. Qed.
+  Lemma gas_nft_transfer_sender i s o s' : f_nft_transfer_sender E i s = (Ok o, s') -> i_gas i < two64 ->
+    exists t2, nft_sender_entry i s = Some t2 /\ priced i o (g_ESDTNFTTransfer G + payload_price t2).
+  Proof.
+    unfold f_nft_transfer_sender. cbv zeta. intros H Hg.
+    ginv; ainv; gas_arith;
+      repeat match goal with
+             | H : val_of _ _ = _ |- _ => apply c06_val_of_ok in H; destruct H as [? ?]; subst
+             | H : meta_of _ _ = _ |- _ => apply c06_meta_of_ok in H; destruct H as [? ?]; subst
+             | H : get_nft_on_sender _ _ _ _ _ = _ |- _ => apply c06_get_nft_sender_ok in H; destruct H as [Hsnd Hacc]
+             | H : save_nft _ _ _ _ _ _ = _ |- _ => pose proof (c06_save_nft_other _ _ _ _ _ _ _ H) as Hsave; clear H
+             | H : load_account _ _ _ = _ |- _ => apply c06_dep_accts in H
+             | H : save_account _ _ _ = _ |- _ => apply c06_dep_accts in H
+             | H : add_nft_to_destination _ _ _ _ _ _ _ = _ |- _ =>
+               apply c06_add_nft_dest_ok in H; destruct H as (cur & v & cv & He & Hv & Hcv & ->)
+             | H : marshal_tok _ _ _ = _ |- _ => apply c06_marshal_tok_ok in H; destruct H as [-> ?]
+             end;
+      try congruence.
+    all: match goal with H : beqb (nth 3 _ []) _ = false |- _ => apply beqb_false_iff in H; rename H into Hne end.
+    (* same shard: the destination's holding as seen from the pre-state *)
+    all: try match goal with
+         | He : entry_at ?s4 _ _ _ = Some _, H1 : accts ?s4 = accts ?s3, Hsave : forall a', _ -> acct ?s3 a' = acct ?s2 a',
+           Hacc : accts ?s2 = accts _ |- _ =>
+           unfold entry_at in He; rewrite c06_tok_nonce_set_value in He;
+           rewrite (c06_acct_accts _ _ _ H1), (Hsave _ Hne), (c06_acct_accts _ _ _ Hacc) in He;
+           cbn [set_value t_value] in Hv; inversion Hv; subst v
+         end.
+    all: eexists; (split; [unfold nft_sender_entry, entry_at; cbv zeta; rewrite Hsnd;
+                           match goal with H : (self_shard E =? _) = _ |- _ => rewrite H end;
+                           try (rewrite He, Hcv); reflexivity|]).
+    all: unfold payload_price; gsimpl; unfold set_value in *; cbn [t_type t_value t_props t_meta t_reserved] in *;
+      match goal with H : mul64 ?a ?b <= sub64 _ _ |- _ => rewrite c06_sub64_exact in H by assumption; set (pp := mul64 a b) in * end;
+      rewrite (c06_sub64_exact (i_gas _)) by assumption;
+      repeat match goal with |- context [if ?b then _ else _] => destruct b end; gsimpl;
+      rewrite ?c06_sub64_exact by lia; lia.
+  Qed.
+
+
+  Lemma c06_check_basic_ok i s u s' : check_basic i s = (Ok u, s') -> s' = s.
+  Proof. unfold check_basic. intros H. minv. reflexivity. Qed.
+
+  (* destination side: everything provided is returned, or forwarded to the called contract *)
+  Lemma gas_nft_transfer i s o s' : f_nft_transfer E i s = (Ok o, s') -> i_gas i < two64 ->
+    priced i o (charge_nft_transfer i s)
+    /\ (beqb (i_caller i) (i_rcpt i) = true ->
+        exists t2, nft_sender_entry i s = Some t2 /\ priced i o (g_ESDTNFTTransfer G + payload_price t2)).
+  Proof.
+    unfold f_nft_transfer, charge_nft_transfer. cbv zeta. intros H Hg.
+    do 3 ginv_step. apply c06_check_basic_ok in H. subst.
+    destruct (beqb (i_caller i) (i_rcpt i)) eqn:Eq.
+    - match goal with H : f_nft_transfer_sender _ _ _ = _ |- _ => apply gas_nft_transfer_sender in H; [|assumption]; destruct H as (t2 & Ht & Hp) end.
+      split; [rewrite Ht; exact Hp|]. intros _. exists t2. split; [exact Ht|exact Hp].
+    - split; [|discriminate]. clear Eq. ginv; gsimpl; lia.
+  Qed.
+
+  (* ================================================================ *)
+  (* MultiESDTNFTTransfer                                               *)
+  (* ================================================================ *)
+  (* data-copy price of the NFT payloads of the travelling entries (fungible entries travel as plain values) *)
+  Fixpoint payload_gas (l : list (bytes * token)) : N :=
+    match l with
+    | [] => 0
+    | (_, t) :: r => match t_meta t with Some _ => payload_price t | None => 0 end + payload_gas r
+    end.
+
+  Lemma c06_multi_out_args_ok : forall lst o acc s args' o' s',
+    multi_out_args E lst o acc s = (Ok (args', o'), s') -> o_gasRemaining o < two64 ->
+    payload_gas lst <= o_gasRemaining o /\ o_gasRemaining o' = o_gasRemaining o - payload_gas lst
+    /\ o_accounts o' = o_accounts o.
+  Proof.
+    induction lst as [|[tok t] r IH]; intros o acc s args' o' s' H Hlt; cbn [multi_out_args payload_gas] in *.
+    - minv. match goal with H : (_, _) = (_, _) |- _ => inversion H; subst end. repeat split; lia.
+    - destruct (t_meta t) eqn:Em.
+      + cbv zeta in H. minv.
+        match goal with H : marshal_tok _ _ _ = _ |- _ => apply c06_marshal_tok_ok in H; destruct H as [-> _] end.
+        gas_arith. fold (payload_price t) in *.
+        match goal with H : multi_out_args _ _ _ _ _ = _ |- _ => apply IH in H; [destruct H as (H1 & H2 & H3)|] end.
+        * cbn [o_gasRemaining o_accounts set_gasrem] in *. rewrite c06_sub64_exact in * by assumption.
+          repeat split; [lia|lia|assumption].
+        * cbn [o_gasRemaining set_gasrem]. rewrite c06_sub64_exact by assumption. lia.
+      + minv. match goal with H : multi_out_args _ _ _ _ _ = _ |- _ => apply IH in H; [destruct H as (H1 & H2 & H3)|assumption] end.
+        repeat split; [lia|lia|assumption].
+  Qed.
+
+  (* the state in which the transfer loop starts: the destination account was loaded when it lives
+     on this shard, three slices of n elements were allocated *)
+  Definition multi_loop_state (s : mstate) (n : N) (same : bool) : mstate :=
+    {| accts := accts s; calls := if same then S (calls s) else calls s; allocs := allocs s + n + n + n |}.
+  (* the travelling entries, as the (gas-independent) transfer loop produces them from the pre-state *)
+  Definition multi_payloads (i : input) (s : mstate) : option (list (bytes * token)) :=
+    let A := i_args i in
+    let dst := nth 0 A [] in
+    let n := bigU64 (nth 1 A []) in
+    let same := self_shard E =? shard_of E dst in
+    let minArgs := u64 (u64 (n * apt) + 2) in
+    match multi_sender_loop E (N.to_nat n) i same dst (must_verify_payable i minArgs) 0 [] [] (multi_loop_state s n same) with
+    | (Ok (lst, _), _) => Some lst
+    | _ => None
+    end.
+  Definition multi_count (i : input) : N := bigU64 (nth 1 (i_args i) []).
+  Definition charge_multi_transfer (i : input) (s : mstate) : N :=
+    if beqb (i_caller i) (i_rcpt i) then
+      mul64 (multi_count i) (g_ESDTNFTMultiTransfer G)
+      + match multi_payloads i s with Some lst => payload_gas lst | None => 0 end
+    else 0.
+
+  Lemma c06_alloc_ok n s u s' : alloc n s = (Ok u, s') ->
+    s' = {| accts := accts s; calls := calls s; allocs := allocs s + n |}.
+  Proof. unfold alloc. destruct (1099511627776 <? n); intros H; inversion H. reflexivity. Qed.
+
+  Lemma gas_multi_transfer_sender i s o s' : f_multi_transfer_sender E i s = (Ok o, s') -> i_gas i < two64 ->
+    multi_count i <= alen (i_args i) / apt /\
+    exists lst, multi_payloads i s = Some lst
+                /\ priced i o (mul64 (multi_count i) (g_ESDTNFTMultiTransfer G) + payload_gas lst).
+  Proof.
+    unfold f_multi_transfer_sender. cbv zeta. intros H Hg.
+    do 17 ginv_step. minv. ainv. gas_arith. split; [assumption|].
+    set (dst := nth 0 (i_args i) []) in *. set (n := bigU64 (nth 1 (i_args i) [])) in *.
+    assert (Hst : x24 = multi_loop_state s n (self_shard E =? shard_of E dst)).
+    { repeat match goal with H : alloc _ _ = _ |- _ => apply c06_alloc_ok in H end.
+      destruct (self_shard E =? shard_of E dst).
+      - match goal with H : load_account _ _ _ = _ |- _ => apply c06_dep_ok in H end. subst. reflexivity.
+      - minv. subst. reflexivity. }
+    subst x24. destruct x25 as [lst logs]. exists lst. split.
+    { unfold multi_payloads. cbv zeta. fold dst n.
+      match goal with H : multi_sender_loop _ _ _ _ _ _ _ _ _ _ = _ |- _ => rewrite H end. reflexivity. }
+    clear H8 H9 H10 H11 H12.
+    ginv; ainv;
+      match goal with H : multi_out_args _ _ _ _ _ = _ |- _ => apply c06_multi_out_args_ok in H;
+        [destruct H as (Hp1 & Hp2 & Hp3)|cbn [o_gasRemaining set_logs mk_out]; rewrite c06_sub64_exact by assumption; lia] end;
+      cbn [o_gasRemaining o_accounts set_logs mk_out] in Hp1, Hp2, Hp3; rewrite c06_sub64_exact in Hp1, Hp2 by assumption;
+      unfold multi_count; fold n;
+      repeat match goal with |- context [if ?b then _ else _] => destruct b end;
+      unfold gas_spec, priced, all_consumed, sum_gasLimit, add_output_transfer, add_nft_transfer, set_accounts, set_gasrem;
+      cbn [o_gasRemaining o_accounts oc_transfers tr_gasLimit fold_right];
+      rewrite ?Hp2, ?Hp3; cbn [fold_right]; lia.
+  Qed.
+
+  Lemma gas_multi_transfer i s o s' : f_multi_transfer E i s = (Ok o, s') -> i_gas i < two64 ->
+    priced i o (charge_multi_transfer i s)
+    /\ (beqb (i_caller i) (i_rcpt i) = true ->
+        multi_count i <= alen (i_args i) / apt /\
+        exists lst, multi_payloads i s = Some lst
+                    /\ priced i o (mul64 (multi_count i) (g_ESDTNFTMultiTransfer G) + payload_gas lst)).
+  Proof.
+    unfold f_multi_transfer, charge_multi_transfer. cbv zeta. intros H Hg.
+    do 3 ginv_step. apply c06_check_basic_ok in H. subst.
+    destruct (beqb (i_caller i) (i_rcpt i)) eqn:Eq.
+    - match goal with H : f_multi_transfer_sender _ _ _ = _ |- _ => apply gas_multi_transfer_sender in H; [|assumption]; destruct H as (Hn & l & Hl & Hp) end.
+      split; [rewrite Hl; exact Hp|]. intros _. split; [exact Hn|]. exists l. split; [exact Hl|exact Hp].
+    - split; [|discriminate]. clear Eq. ginv; gsimpl; lia.
+  Qed.
+
+  (* ================================================================ *)
+  (* all 23 functions through the dispatch                              *)
+  (* ================================================================ *)
+  (* what a successful execution charges: a function of the environment, the input without its gas
+     field, and the pre-state.  0 for the paths that do not price (system functions, destination-side
+     executions): their behaviour is [all_consumed] or "everything returned/forwarded". *)
+  Definition charge (f : bytes) (i : input) (s : mstate) : N :=
+    if beqb f C.BuiltInFunctionClaimDeveloperRewards then (if i_snd i then g_ClaimDeveloperRewards G else 0)
+    else if beqb f C.BuiltInFunctionChangeOwnerAddress then g_ChangeOwnerAddress G
+    else if beqb f C.BuiltInFunctionSetUserName then (if i_dst i then g_SaveUserName G else 0)
+    else if beqb f C.BuiltInFunctionSaveKeyValue then charge_save_key_value i s
+    else if beqb f C.BuiltInFunctionESDTPause then 0
+    else if beqb f C.BuiltInFunctionESDTUnPause then 0
+    else if beqb f C.BuiltInFunctionESDTTransfer then charge_esdt_transfer i
+    else if beqb f C.BuiltInFunctionESDTBurn then g_ESDTBurn G
+    else if beqb f C.BuiltInFunctionESDTFreeze then 0
+    else if beqb f C.BuiltInFunctionESDTUnFreeze then 0
+    else if beqb f C.BuiltInFunctionESDTWipe then 0
+    else if beqb f C.BuiltInFunctionUnSetESDTRole then 0
+    else if beqb f C.BuiltInFunctionSetESDTRole then 0
+    else if beqb f C.BuiltInFunctionESDTLocalBurn then g_ESDTLocalBurn G
+    else if beqb f C.BuiltInFunctionESDTLocalMint then g_ESDTLocalMint G
+    else if beqb f C.BuiltInFunctionESDTNFTAddQuantity then g_ESDTNFTAddQuantity G
+    else if beqb f C.BuiltInFunctionESDTNFTBurn then g_ESDTNFTBurn G
+    else if beqb f C.BuiltInFunctionESDTNFTCreate then charge_nft_create (i_args i)
+    else if beqb f C.BuiltInFunctionESDTNFTTransfer then charge_nft_transfer i s
+    else if beqb f C.BuiltInFunctionESDTNFTCreateRoleTransfer then 0
+    else if beqb f C.BuiltInFunctionESDTNFTUpdateAttributes then charge_update_attributes (i_args i)
+    else if beqb f C.BuiltInFunctionESDTNFTAddURI then charge_add_uri (i_args i)
+    else if beqb f C.BuiltInFunctionMultiESDTNFTTransfer then charge_multi_transfer i s
+    else 0.
+
+  Theorem gas_spec_exec f i s o s' :
+    exec E f i s = (Ok o, s') -> i_gas i < two64 -> gas_spec i o (charge f i s).
+  Proof.
+    unfold exec, charge. intros H Hg.
+    repeat match goal with
+           | H : (if beqb f ?c then _ else _) _ = _ |- _ => destruct (beqb f c)
+           end.
+    - apply gas_claim_rewards in H; [|assumption]. destruct (i_snd i); [apply H|right; exact H].
+    - apply gas_change_owner in H; [|assumption]. destruct H as (_ & _ & H). destruct (i_snd i); [left|right]; exact H.
+    - apply gas_set_user_name in H; [|assumption]. destruct H as (_ & H). destruct (i_dst i); left; [apply H|].
+      unfold priced. lia.
+    - apply gas_save_key_value in H; [|assumption]. left. apply H.
+    - right. eapply gas_pause; eassumption.
+    - right. eapply gas_pause; eassumption.
+    - apply gas_esdt_transfer in H; [|assumption]. unfold charge_esdt_transfer.
+      destruct (i_snd i); [left; exact H|]. destruct (i_dst i && sc_call_after i)%bool; [apply H|].
+      destruct (i_dst i && (i_callType i =? C.AsynchronousCallBack))%bool; [left|right]; exact H.
+    - left. eapply gas_esdt_burn; eassumption.
+    - right. eapply gas_freeze_wipe; eassumption.
+    - right. eapply gas_freeze_wipe; eassumption.
+    - right. eapply gas_freeze_wipe; eassumption.
+    - right. eapply gas_roles; eassumption.
+    - right. eapply gas_roles; eassumption.
+    - left. eapply gas_local_burn; eassumption.
+    - left. eapply gas_local_mint; eassumption.
+    - left. eapply gas_nft_add_quantity; eassumption.
+    - left. eapply gas_nft_burn; eassumption.
+    - left. eapply gas_nft_create; eassumption.
+    - left. eapply gas_nft_transfer; eassumption.
+    - right. eapply gas_create_role_transfer; eassumption.
+    - left. eapply gas_nft_update_attributes; eassumption.
+    - left. eapply gas_nft_add_uri; eassumption.
+    - left. eapply gas_multi_transfer; eassumption.
+    - unfold fail in H. discriminate.
+  Qed.
+
+  (* C06, first clause *)
+  Theorem gas_not_created f i s o s' :
+    exec E f i s = (Ok o, s') -> i_gas i < two64 -> o_gasRemaining o + sum_gasLimit o <= i_gas i.
+  Proof. intros H Hg. eapply gas_spec_not_created. eapply gas_spec_exec; eassumption. Qed.
+
+  (* C06, second clause: below the charge the call fails, or succeeds with nothing left and nothing forwarded *)
+  Theorem underfunded_fails_or_consumes_all f i s :
+    i_gas i < two64 -> i_gas i < charge f i s ->
+    match exec E f i s with
+    | (Ok o, _) => o_gasRemaining o = 0 /\ sum_gasLimit o = 0
+    | _ => True
+    end.
+  Proof.
+    intros Hg Hlt. destruct (exec E f i s) as [[o| |] s'] eqn:Hx; [|exact I|exact I].
+    eapply gas_spec_underfunded; [eapply gas_spec_exec; eassumption|assumption].
   Qed.
 End GasSpec.
